@@ -623,6 +623,109 @@ func monC05(c *child.Ctx, replay json.RawMessage) {
 		c.Count("concurrent_displays_checked", int64(nd))
 		c.EvalN(1)
 	}
+	// the same few stations displayed by eight goroutines in turn (a caster relaying one
+	// base station to many clients: everybody displays the same two or three positions,
+	// alternately, at the same moments) - each goroutine has its own decoded messages
+	{
+		rounds := c.Share(c.Pick(400, 8000))
+		for round := 0; round < rounds && c.NViolations() == 0; round++ {
+			t := 1005 + round%2
+			var stations []*ref.Base
+			var frames [][]byte
+			for s := 0; s < 2+round%2; s++ {
+				b := gen.RandBase(r, t)
+				b.Trailing = nil
+				stations = append(stations, b)
+				frames = append(frames, ref.Frame(ref.EncodeBase(b, t)))
+			}
+			var wg sync.WaitGroup
+			var bad atomic.Value
+			start := make(chan struct{})
+			for g := 0; g < 8; g++ {
+				wg.Add(1)
+				go func(g int) {
+					defer wg.Done()
+					defer func() {
+						if x := recover(); x != nil {
+							bad.Store([2]string{fmt.Sprintf("panic while the same stations were displayed side by side: %v", x), "null"})
+						}
+					}()
+					<-start
+					for i := 0; i < 60 && bad.Load() == nil; i++ {
+						s := i % len(stations)
+						_, text, err := decodeBaseDirect(t, frames[s], slog.LevelInfo)
+						if err != nil {
+							continue
+						}
+						if why := checkBaseText(stations[s], text); why != "" {
+							cj, _ := json.Marshal(baseCase{B: stations[s], TypeField: t, Cut: -1})
+							bad.Store([2]string{fmt.Sprintf("type %d String while seven other goroutines display the same %d stations in turn: %s", t, len(stations), why), string(cj)})
+						}
+					}
+				}(g)
+			}
+			close(start)
+			wg.Wait()
+			if v := bad.Load(); v != nil {
+				c.Violate("display-not-exact", v.([2]string)[0], []byte(v.([2]string)[1]))
+			}
+			c.Count("rounds_of_the_same_stations_displayed_side_by_side", 1)
+			if round%16 == 0 {
+				tick()
+			}
+		}
+		c.EvalN(1)
+	}
+	// CRC twins: two different messages of one type and length whose frames carry the
+	// same three CRC bytes (they differ by a multiple of the CRC's generator polynomial
+	// in their last 25 bits), decoded alternately - the CRC identifies nothing
+	{
+		nt := c.Share(c.Pick(2000, 40000))
+		for i := 0; i < nt && c.NViolations() == 0; i++ {
+			t := 1005 + i%2
+			a := gen.RandBase(r, t)
+			a.Trailing = nil
+			b := *a
+			const generator = uint64(0x1864CFB)
+			if t == 1005 {
+				z := (uint64(a.Z) & (1<<38 - 1)) ^ generator
+				b.Z = int64(z<<26) >> 26
+			} else {
+				tail := ((uint64(a.Z)&(1<<38-1))<<16 | uint64(a.Height)&0xffff) ^ generator
+				b.Height = uint(tail & 0xffff)
+				b.Z = int64((tail>>16)<<26) >> 26
+			}
+			fa, fb := ref.Frame(ref.EncodeBase(a, t)), ref.Frame(ref.EncodeBase(&b, t))
+			if !bytes.Equal(fa[len(fa)-3:], fb[len(fb)-3:]) || bytes.Equal(fa, fb) {
+				c.Count("crc_twin_construction_failed", 1)
+				continue
+			}
+			for rep := 0; rep < 2; rep++ {
+				run(baseCase{B: a, TypeField: t, Cut: -1}, true)
+				run(baseCase{B: &b, TypeField: t, Cut: -1}, true)
+			}
+			// and directly one after the other at one log level
+			for _, lvl := range []slog.Level{slog.LevelInfo, slog.LevelDebug} {
+				for rep := 0; rep < 3; rep++ {
+					for wi, want := range []*ref.Base{a, &b} {
+						f, text, err := decodeBaseDirect(t, [][]byte{fa, fb}[wi], lvl)
+						why := ""
+						if err != nil {
+							why = "well-formed message rejected: " + err.Error()
+						} else if why = checkBaseFields(want, f); why == "" {
+							why = checkBaseText(want, text)
+						}
+						if why != "" {
+							cj, _ := json.Marshal(baseCase{B: want, TypeField: t, Cut: -1})
+							c.Violate("field-mismatch", fmt.Sprintf("type %d message decoded straight after a different message of the same length whose frame has the same CRC: %s", t, why), cj)
+							break
+						}
+					}
+				}
+			}
+			c.Count("crc_twin_pairs_decoded_alternately", 1)
+		}
+	}
 	// results that are kept: a decoded message must not change when later messages are
 	// decoded (the caller - the proxy's report queue, a display goroutine - still holds it)
 	nk := c.Share(c.Pick(20000, 400000))
